@@ -65,7 +65,14 @@ func genC10Cleanup(dt *drv.T, depth int) *Stmt {
 	st := &Stmt{Op: "cleanup"}
 	n := drv.IntRange(0, 3).Draw(dt, "ncl")
 	for i := 0; i < n; i++ {
-		switch pick(dt, "clstmt", "ctx", "ctx", "log", "sig", "nested", "nested") {
+		switch pick(dt, "clstmt", "ctx", "ctx", "log", "sig", "nested", "nested", "skip") {
+		case "skip":
+			// a cleanup may declare the test case invalid (unusual, but legal): the bracket discipline is about
+			// every way a call can end
+			if chance(dt, "clskip", 40) {
+				st.Body = append(st.Body, &Stmt{Op: "skip", Kind: pick(dt, "skipkind", skipKinds...)})
+				return st
+			}
 		case "ctx":
 			st.Body = append(st.Body, &Stmt{Op: "ctx"})
 		case "log":
